@@ -4,6 +4,7 @@ package c07
 import (
 	"fmt"
 	"math"
+	"runtime"
 	"sort"
 	"strconv"
 	"testing"
@@ -26,7 +27,8 @@ const (
 	opString   = 7 // String()
 	opScribble = 8 // the caller overwrites position A mod n of the slice it passed to NewSorted with elem(B)
 	opSweep    = 9 // strict orders: Index/Contains of (up to 64 evenly spread) distinct stored values and of 8 values elem(A), elem(A+1), ...
-	nOps       = 10
+	opGC       = 10 // runtime.GC() (twice when A is odd: two cycles empty every sync.Pool); not a library call; the first four of a case only
+	nOps       = 11
 )
 
 // Index modes (Op.B of RemoveAt/Get): 0 = A mod Len (a valid index unless the
@@ -52,8 +54,9 @@ type Fill struct {
 }
 
 const (
-	maxRepeat  = 1 << 15 // R, Rounds and Fill.N are reduced modulo this
-	maxLenSeen = 1 << 20
+	maxRepeat  = 1 << 21 // R, Rounds and Fill.N are reduced modulo this
+	maxLenSeen = 1 << 22
+	maxGCs     = 4 // opGC beyond the fourth of a case does nothing
 )
 
 // Case: one Sorted built from Init followed by the runs of Bulk (raw ints,
@@ -89,10 +92,12 @@ type Case struct {
 	Spare  int    `json:"spare"`
 	Ops    []Op   `json:"ops"`
 	Rounds int    `json:"rounds,omitempty"`
+	// Procs > 0: the whole case (construction included) runs under runtime.GOMAXPROCS(Procs), restored afterwards.
+	Procs int `json:"procs,omitempty"`
 }
 
 const rule = "Sorted built by NewSorted/NewSortedOrdered from explicit raw values plus arithmetic runs (raw x: strict orders use the x mod Vals-th value of the order's alphabet, the weak orders key x mod Vals and tag x div Vals; Vals = 7 unless stated) in a caller slice with spare capacity (nil when empty); " +
-	"ops Add/Remove/RemoveAt/Get/Index/Contains/Len/String, Scribble (caller overwrites its own slice) and Sweep (Index+Contains of up to 64 evenly spread distinct stored values and of 8 more values), each op repeatable R times with its argument advancing by a stride, the whole list repeatable in rounds; " +
+	"ops Add/Remove/RemoveAt/Get/Index/Contains/Len/String, Scribble (caller overwrites its own slice), Sweep (Index+Contains of up to 64 evenly spread distinct stored values and of 8 more values) and, in the big units, runtime.GC() in the middle of the history (at most four per case); the whole case optionally under another runtime.GOMAXPROCS; each op repeatable R times with its argument advancing by a stride, the whole list repeatable in rounds; " +
 	"indices are valid (A mod Len, Len/2) or one of -1, Len, Len+3, -(A+2), MaxInt, MinInt. " +
 	"After EVERY single call the contents are read back through Len+Get and compared with a slice model: non-decreasing under less and exact multiset after construction and Add; " +
 	"exactly 'before minus position p' after Remove (p = returned index) and RemoveAt; unchanged (same sequence) after everything else including Remove->-1 and recovered out-of-range panics; " +
@@ -176,69 +181,141 @@ type env[E comparable] struct {
 	sentinel E // fills the spare capacity of the caller's slice
 }
 
-func Run(c Case) pbt.Outcome {
-	vals := c.Vals
+// envRunner: one generic function instantiated for each of the five element types.
+type envRunner struct {
+	Int   func(env[int]) pbt.Outcome
+	Str   func(env[string]) pbt.Outcome
+	Float func(env[float64]) pbt.Outcome
+	KT    func(env[kt]) pbt.Outcome
+	Unit  func(env[struct{}]) pbt.Outcome
+}
+
+func normVals(vals int) int {
 	if vals <= 0 {
 		vals = 7
 	}
 	if vals > 1<<24 {
 		vals = 1 << 24
 	}
+	return vals
+}
+
+// withProcs runs f under GOMAXPROCS(procs) (procs <= 0: unchanged; capped at 64).
+func withProcs(procs int, f func() pbt.Outcome) pbt.Outcome {
+	if procs > 0 {
+		if procs > 64 {
+			procs = 64
+		}
+		defer runtime.GOMAXPROCS(runtime.GOMAXPROCS(procs))
+	}
+	return f()
+}
+
+func procsLabel(p int) string {
+	if p <= 0 {
+		return "gomaxprocs=default"
+	}
+	return "gomaxprocs=" + strconv.Itoa(p)
+}
+
+func Run(c Case) pbt.Outcome {
+	return withProcs(c.Procs, func() pbt.Outcome {
+		out := withEnv(c.Order, c.Vals, envRunner{
+			Int:   func(e env[int]) pbt.Outcome { return run(c, e) },
+			Str:   func(e env[string]) pbt.Outcome { return run(c, e) },
+			Float: func(e env[float64]) pbt.Outcome { return run(c, e) },
+			KT:    func(e env[kt]) pbt.Outcome { return run(c, e) },
+			Unit:  func(e env[struct{}]) pbt.Outcome { return run(c, e) },
+		})
+		if c.Procs > 0 && out.Violation == "" {
+			out.Labels = append(out.Labels, procsLabel(c.Procs))
+		}
+		return out
+	})
+}
+
+// withEnv builds the element mapping, less function and constructor of an order and hands them to the runner.
+func withEnv(order string, vals int, r envRunner) pbt.Outcome {
+	vals = normVals(vals)
 	descI := func(a, b int) bool { return a > b }
 	descS := func(a, b string) bool { return a > b }
 	descF := func(a, b float64) bool { return a > b }
-	switch c.Order {
+	switch order {
 	case "int":
-		return run(c, env[int]{elem: intElem(vals), less: typ.Less[int], strict: true, sentinel: -99,
+		return r.Int(env[int]{elem: intElem(vals), less: typ.Less[int], strict: true, sentinel: -99,
 			build: func(in []int) slices.Sorted[int] { return slices.NewSortedOrdered(in...) }})
 	case "named":
-		return run(c, env[int]{elem: intElem(vals), less: typ.Less[int], strict: true, sentinel: -99,
+		return r.Int(env[int]{elem: intElem(vals), less: typ.Less[int], strict: true, sentinel: -99,
 			build: func(in []int) slices.Sorted[int] { return slices.NewSorted(myInts(in), typ.Less[int]) }})
 	case "desc":
-		return run(c, env[int]{elem: intElem(vals), less: descI, strict: true, sentinel: -99,
+		return r.Int(env[int]{elem: intElem(vals), less: descI, strict: true, sentinel: -99,
 			build: func(in []int) slices.Sorted[int] { return slices.NewSorted(in, descI) }})
 	case "str":
-		return run(c, env[string]{elem: strElem(vals), less: typ.Less[string], strict: true, sentinel: "~spare~",
+		return r.Str(env[string]{elem: strElem(vals), less: typ.Less[string], strict: true, sentinel: "~spare~",
 			build: func(in []string) slices.Sorted[string] { return slices.NewSortedOrdered(in...) }})
 	case "edge":
-		return run(c, env[int]{elem: edgeElem(vals), less: typ.Less[int], strict: true, sentinel: -99,
+		return r.Int(env[int]{elem: edgeElem(vals), less: typ.Less[int], strict: true, sentinel: -99,
 			build: func(in []int) slices.Sorted[int] { return slices.NewSortedOrdered(in...) }})
 	case "float":
-		return run(c, env[float64]{elem: floatElem(vals), less: typ.Less[float64], strict: true, sentinel: -99.5,
+		return r.Float(env[float64]{elem: floatElem(vals), less: typ.Less[float64], strict: true, sentinel: -99.5,
 			build: func(in []float64) slices.Sorted[float64] { return slices.NewSortedOrdered(in...) }})
 	case "lex":
 		lex := func(a, b kt) bool { return a.K < b.K || (a.K == b.K && a.T < b.T) }
-		return run(c, env[kt]{elem: func(x int) kt { x = mod(x, vals); return kt{x / 3, x % 3} }, less: lex, strict: true, sentinel: kt{-99, -99},
+		return r.KT(env[kt]{elem: func(x int) kt { x = mod(x, vals); return kt{x / 3, x % 3} }, less: lex, strict: true, sentinel: kt{-99, -99},
 			build: func(in []kt) slices.Sorted[kt] { return slices.NewSorted(in, lex) }})
 	case "unit":
 		never := func(a, b struct{}) bool { return false }
-		return run(c, env[struct{}]{elem: func(int) struct{} { return struct{}{} }, less: never, strict: true,
+		return r.Unit(env[struct{}]{elem: func(int) struct{} { return struct{}{} }, less: never, strict: true,
 			build: func(in []struct{}) slices.Sorted[struct{}] { return slices.NewSorted(in, never) }})
 	case "ifdesc":
-		return run(c, env[int]{elem: intElem(vals), less: descI, strict: true, sentinel: -99,
+		return r.Int(env[int]{elem: intElem(vals), less: descI, strict: true, sentinel: -99,
 			build: func(in []int) slices.Sorted[int] { return slices.NewSorted(sort.IntSlice(in), descI) }})
 	case "ifstr":
-		return run(c, env[string]{elem: strElem(vals), less: descS, strict: true, sentinel: "~spare~",
+		return r.Str(env[string]{elem: strElem(vals), less: descS, strict: true, sentinel: "~spare~",
 			build: func(in []string) slices.Sorted[string] { return slices.NewSorted(sort.StringSlice(in), descS) }})
 	case "iffloat":
-		return run(c, env[float64]{elem: floatElem(vals), less: descF, strict: true, sentinel: -99.5,
+		return r.Float(env[float64]{elem: floatElem(vals), less: descF, strict: true, sentinel: -99.5,
 			build: func(in []float64) slices.Sorted[float64] { return slices.NewSorted(sort.Float64Slice(in), descF) }})
 	case "ifweird":
-		return run(c, env[int]{elem: intElem(vals), less: typ.Less[int], strict: true, sentinel: -99,
+		return r.Int(env[int]{elem: intElem(vals), less: typ.Less[int], strict: true, sentinel: -99,
 			build: func(in []int) slices.Sorted[int] { return slices.NewSorted(weirdInts(in), typ.Less[int]) }})
 	case "ifptr":
-		return run(c, env[int]{elem: intElem(vals), less: typ.Less[int], strict: true, sentinel: -99,
+		return r.Int(env[int]{elem: intElem(vals), less: typ.Less[int], strict: true, sentinel: -99,
 			build: func(in []int) slices.Sorted[int] { return slices.NewSorted(ptrInts(in), typ.Less[int]) }})
 	case "weak":
 		byKey := func(a, b kt) bool { return a.K < b.K }
-		return run(c, env[kt]{elem: func(x int) kt { x = mod(x, 3*vals); return kt{x % vals, x / vals} }, less: byKey, strict: false, sentinel: kt{-99, -99},
+		return r.KT(env[kt]{elem: func(x int) kt { x = mod(x, 3*vals); return kt{x % vals, x / vals} }, less: byKey, strict: false, sentinel: kt{-99, -99},
 			build: func(in []kt) slices.Sorted[kt] { return slices.NewSorted(in, byKey) }})
 	case "ifweak":
 		byKey := func(a, b kt) bool { return a.K < b.K }
-		return run(c, env[kt]{elem: func(x int) kt { x = mod(x, 3*vals); return kt{x % vals, x / vals} }, less: byKey, strict: false, sentinel: kt{-99, -99},
+		return r.KT(env[kt]{elem: func(x int) kt { x = mod(x, 3*vals); return kt{x % vals, x / vals} }, less: byKey, strict: false, sentinel: kt{-99, -99},
 			build: func(in []kt) slices.Sorted[kt] { return slices.NewSorted(ktByTag(in), byKey) }})
 	}
-	return pbt.Fail("malformed case: unknown order %q", c.Order)
+	return pbt.Fail("malformed case: unknown order %q", order)
+}
+
+// indexArg: the index argument of Get/RemoveAt for raw A, mode B and current length n (see the index modes).
+func indexArg(a, b, n int) int {
+	switch mod(b, nModes) {
+	case 1:
+		return -1
+	case 2:
+		return n
+	case 3:
+		return n + 3
+	case 4:
+		return -(mod(a, 1000) + 2)
+	case 5:
+		return math.MaxInt
+	case 6:
+		return math.MinInt
+	case 7:
+		return n / 2
+	}
+	if n == 0 {
+		return 0
+	}
+	return mod(a, n)
 }
 
 // try runs f and reports whether it panicked.
@@ -423,9 +500,10 @@ func run[E comparable](c Case, e env[E]) pbt.Outcome {
 		oobGet, oobRemoveAt, okGet                        bool
 		ratMid, ratEdge, emptied                          bool
 		idxAbsent, idxDup, idxPresent                     bool
-		scribbled, swept                                  bool
+		scribbled, swept, gced                            bool
 		removedBig, quartered, regrown                    bool
 		staleIdx                                          bool
+		gcs                                               int
 		maxLen                                            = len(model)
 		peak                                              = len(model) // largest length since the slice was last empty
 		lastAdd                                           E
@@ -438,28 +516,7 @@ func run[E comparable](c Case, e env[E]) pbt.Outcome {
 		}
 	}
 
-	index := func(op Op) int {
-		switch mod(op.B, nModes) {
-		case 1:
-			return -1
-		case 2:
-			return len(model)
-		case 3:
-			return len(model) + 3
-		case 4:
-			return -(mod(op.A, 1000) + 2)
-		case 5:
-			return math.MaxInt
-		case 6:
-			return math.MinInt
-		case 7:
-			return len(model) / 2
-		}
-		if len(model) == 0 {
-			return 0
-		}
-		return mod(op.A, len(model))
-	}
+	index := func(op Op) int { return indexArg(op.A, op.B, len(model)) }
 
 	// noteRemoved: bookkeeping for a removal of position p of the current model.
 	noteRemoved := func(p int) {
@@ -471,11 +528,16 @@ func run[E comparable](c Case, e env[E]) pbt.Outcome {
 		}
 	}
 
-	step := func(tag string, op Op) pbt.Outcome {
+	rounds := mod(c.Rounds, maxRepeat)
+	step := func(ri, oi, ji int, repeated bool, op Op) pbt.Outcome {
 		var what string
 		at := 0
 		removedAt := -1 // expected exact contents after the call: the model (default), or the model without this position
 		fail := func(format string, a ...any) pbt.Outcome {
+			tag := fmt.Sprintf("op %d", oi)
+			if repeated {
+				tag = fmt.Sprintf("round %d op %d repeat %d", ri, oi, ji)
+			}
 			return pbt.Fail("%s: %s %s on %s: %s", hdr, tag, what, show(model, at), fmt.Sprintf(format, a...))
 		}
 		isAdd := false
@@ -654,6 +716,19 @@ func run[E comparable](c Case, e env[E]) pbt.Outcome {
 			in[pos] = v
 			wantBack[pos] = v
 			scribbled = true
+		case opGC:
+			what = "runtime.GC()"
+			if gcs >= maxGCs { // a collection costs as much as thousands of calls: at most maxGCs per case
+				what = "(runtime.GC() skipped)"
+				break
+			}
+			gcs++
+			runtime.GC()
+			if mod(op.A, 2) == 1 {
+				what = "runtime.GC() twice"
+				runtime.GC()
+			}
+			gced = true
 		case opSweep:
 			what = "Sweep"
 			if !e.strict {
@@ -743,7 +818,6 @@ func run[E comparable](c Case, e env[E]) pbt.Outcome {
 	}
 
 	occ := make([]int, len(c.Ops))
-	rounds := mod(c.Rounds, maxRepeat)
 	steps := 0
 	for r := 0; r <= rounds; r++ {
 		for i, op0 := range c.Ops {
@@ -753,11 +827,7 @@ func run[E comparable](c Case, e env[E]) pbt.Outcome {
 				op.A = op0.A + occ[i]*op0.S
 				occ[i]++
 				steps++
-				tag := fmt.Sprintf("op %d", i)
-				if rounds > 0 || reps > 0 {
-					tag = fmt.Sprintf("round %d op %d repeat %d", r, i, j)
-				}
-				if o := step(tag, op); o.Violation != "" {
+				if o := step(r, i, j, rounds > 0 || reps > 0, op); o.Violation != "" {
 					return o
 				}
 			}
@@ -810,16 +880,21 @@ func run[E comparable](c Case, e env[E]) pbt.Outcome {
 	lab(staleIdx, "index-of-last-added-duplicate-after-removal-below-it")
 	lab(scribbled, "caller-scribbles-input")
 	lab(swept, "sweep")
+	lab(gced, "gc-in-the-middle")
 	lab(removedBig, "removal-at-len>=32")
 	lab(quartered, "drained-to-quarter-of-peak>=64")
 	lab(regrown, "regrown-to-peak-after-draining-to-quarter")
 	lab(maxLen >= 8, "maxlen>=8")
-	for _, t := range []int{32, 64, 128, 256, 512, 1024, 2048, 4096, 8192} {
+	for _, t := range []int{32, 64, 128, 256, 512, 1024, 2048, 4096, 8192, 1 << 14, 1 << 15, 1 << 16, 1 << 17, 1 << 18, 1 << 20} {
 		if maxLen > t {
 			out.Labels = append(out.Labels, "maxlen>"+strconv.Itoa(t))
 		}
 	}
 	switch {
+	case steps > 1<<17:
+		out.Labels = append(out.Labels, "calls>2^17")
+	case steps > 1<<16:
+		out.Labels = append(out.Labels, "calls>2^16")
 	case steps >= 1000:
 		out.Labels = append(out.Labels, "calls>=1000")
 	case steps >= 100:
@@ -845,16 +920,18 @@ var kindTable = []int{
 var modeTable = []int{0, 0, 0, 0, 0, 0, 0, 7, 1, 2, 3, 4, 5, 6}
 
 // opGenWith: A in 0..maxA; repeats/strides drawn from the given tables.
-func opGenWith(maxA int, repeats, strides []int) *rapid.Generator[Op] {
+func opGenWith(kinds []int, maxA int, repeats, strides []int) *rapid.Generator[Op] {
 	return rapid.Custom(func(t *rapid.T) Op {
-		op := Op{K: rapid.SampledFrom(kindTable).Draw(t, "k"), A: rapid.IntRange(0, maxA).Draw(t, "a")}
+		op := Op{K: rapid.SampledFrom(kinds).Draw(t, "k"), A: rapid.IntRange(0, maxA).Draw(t, "a")}
 		switch op.K {
 		case opRemoveAt, opGet:
 			op.B = rapid.SampledFrom(modeTable).Draw(t, "mode")
 		case opScribble:
 			op.B = rapid.IntRange(0, maxA).Draw(t, "b")
 		}
-		op.R = rapid.SampledFrom(repeats).Draw(t, "r")
+		if op.K != opGC {
+			op.R = rapid.SampledFrom(repeats).Draw(t, "r")
+		}
 		if op.R > 0 {
 			op.S = rapid.SampledFrom(strides).Draw(t, "s")
 		}
@@ -869,7 +946,7 @@ var smallRepeats = func() []int {
 	return r
 }()
 
-var smallOpGen = opGenWith(62, smallRepeats, []int{0, 1, -1, 3})
+var smallOpGen = opGenWith(kindTable, 62, smallRepeats, []int{0, 1, -1, 3})
 
 var smallVals = []int{0, 0, 0, 0, 1, 2, 3, 30}
 
